@@ -68,6 +68,15 @@ CLAIMS = {
         note='Trusted base: the table of library-call meanings (CUDD/Sylvan/BuDDy manuals), the line-level .pyx normaliser (result must ast.parse); Cython code generation and the C libraries are outside the claim. One known finding (sylvan quantifier roles).',
         ref='DESIGN.md section 8 C19',
         technique='symbolic execution of the normalised .pyx method bodies with library stubs on z3 bit-vectors; z3 decides equivalence with the real dd.bdd.BDD.apply for all operand values; symbolic reference ledger'),
+    'C09': dict(
+        text='Bounded symbolic model checking of the reordering schedule: every node-creation request of every public operation is a symbolic "fire here?" decision; the real _try_to_reorder decorator, _ReorderingContext and all decorated/undecorated entry points run over contract stubs; '
+             'reorder is replaced by its contract (every reference not externally held becomes stale). Failures: signal reaches the caller, stale reference used, wrong result, reordering left disabled, context flag not restored.',
+        note='reorder contract instantiated with the identity permutation (a cut); counterexamples are replayed on the real code with the growth threshold lowered; 7 known findings (undecorated callers).',
+        ref='DESIGN.md section 8 C09'),
+    'C12': dict(
+        text='Bounded symbolic model checking of pickle dump/load logic (roots as list/dict/None, fresh or pre-declared receiving manager in the same or another order, levels true/false) and of the whole-manager pickle: loaded roots denote the dumped functions by name, receiving manager canonical with exact counts.',
+        note='open/pickle replaced by an in-memory hand-over (on-disk byte format is outside the claim); replays use real files and real pickle. JSON format: see not-applicable note in DESIGN.md (formatting concretises everything).',
+        ref='DESIGN.md section 8 C12'),
     'C10': dict(
         text='Bounded symbolic model checking of support/is_essential/count/pick_iter/pick (no stubs, read-only) against bit-vector dependence, popcount and cube-cover oracles for every valid manager and operand within the bounds.',
         note='_assert_int (a Python-type assertion) replaced by identity; levels are concretised by the set/dict lookups of the real code, children and signs stay symbolic.',
